@@ -36,3 +36,7 @@ def run(ctx, rep):
         check_line_recogniser(ctx, NQ, info, r8, r8, r8, only={"canon", "capture", "groups"})
     r7 = rep.rule("sections", "the track reads note data from the note kind's list of its own lines", floor=1)
     check_track_sections(ctx, r7, which="instrument")
+    rch = rep.rule("chain", "file -> lines (read().splitlines(), utf-8-sig) -> framing -> section route -> dispatcher -> builders: every link "
+                            "hands the lines on unchanged", floor=10)
+    from .chain import check_chain
+    check_chain(ctx, rch, "instrument", strict=True)
